@@ -124,7 +124,12 @@ class KeyAction(object):
             if len(key._uids) == 0 and key.is_primary and action is not key.certify.__wrapped__:
                 raise PGPError("Key is not complete - please add a User ID!")
 
-            with self.usage(key, kwargs.get('user', None)) as _key:
+            user = kwargs.get('user', None)
+            if user is not None and key.get_uid(user) is None:
+                # the caller asked for the flags and preferences of one identity in particular
+                raise PGPError("Key {:s} has no user id matching {!r}".format(key.fingerprint.keyid, user))
+
+            with self.usage(key, user) as _key:
                 # the conditions have to hold for the component that does the work, which may be a subkey that is
                 # protected differently from the key this was called on
                 self.check_attributes(_key)
